@@ -83,11 +83,29 @@ class SymSeq:
     sequence of k-tuples has k components (`tuple_elems=True`).
     """
 
-    def __init__(self, comps, length, kinds, tuple_elems=False):
+    def __init__(self, comps, length, kinds, tuple_elems=False, psums=None):
         self.comps = tuple(comps)
         self.length = length
         self.kinds = tuple(kinds)
         self.tuple_elems = tuple_elems
+        # optional prefix-sum arrays (definitional extension): psums[i][k] == sum(comp_i[0..k))
+        self.psums = psums
+
+    def with_psums(self, st, name="ps"):
+        """Attach prefix-sum arrays for the int/real components (sound: they are a function of the content)."""
+        if self.psums is not None:
+            return self
+        ps = []
+        j = z3.Int("j!ps")
+        for c, k in zip(self.comps, self.kinds):
+            if k not in ("int", "real"):
+                ps.append(None)
+                continue
+            p = z3.Const(f"{name}!{next(_ctr)}", z3.ArraySort(INT, kind_sort(k)))
+            st.assume(z3.Select(p, 0) == 0)
+            st.assume(z3.ForAll([j], z3.Implies(z3.And(0 <= j, j < self.length), z3.Select(p, j + 1) == z3.Select(p, j) + z3.Select(c, j))))
+            ps.append(p)
+        return SymSeq(self.comps, self.length, self.kinds, self.tuple_elems, ps)
 
     @staticmethod
     def fresh(name, kinds, tuple_elems=False):
@@ -108,20 +126,30 @@ class SymSeq:
             z3.Store(c, self.length, unwrap(v, k))
             for c, v, k in zip(self.comps, vals, self.kinds)
         ]
-        return SymSeq(comps, self.length + 1, self.kinds, self.tuple_elems)
+        ps = None
+        if self.psums is not None:
+            ps = [
+                None if p is None else z3.Store(p, self.length + 1, z3.Select(p, self.length) + unwrap(v, k))
+                for p, v, k in zip(self.psums, vals, self.kinds)
+            ]
+        return SymSeq(comps, self.length + 1, self.kinds, self.tuple_elems, ps)
 
 
 class LstObj:
-    """Mutable box holding a SymSeq: a local Python list of symbolic length."""
+    """Handle of a local Python list of symbolic length.  The content (a SymSeq) lives in the
+    *state* (st.boxes[id]), so a handle captured before a fork stays valid in every branch."""
 
     def __init__(self, seq):
-        self.seq = seq
+        self.id = next(_ctr)
+        self._init = seq
 
     def get(self, st):
-        return self.seq
+        if self.id not in st.boxes:
+            st.boxes[self.id] = self._init
+        return st.boxes[self.id]
 
     def set(self, st, seq):
-        self.seq = seq
+        st.boxes[self.id] = seq
 
 
 class FieldList:
@@ -276,6 +304,7 @@ class State:
         self.exc = None
         self.trace = []  # branch decisions (for samples / replay)
         self.frames = []  # caller environments of inlined calls
+        self.boxes = {}  # LstObj id -> SymSeq
 
     def init_heap(self, tag="h0"):
         for cls, f, k in heap_keys():
@@ -330,12 +359,8 @@ def _copy_value(v, memo):
     i = id(v)
     if i in memo:
         return memo[i]
-    if isinstance(v, (SStr, Ref, OrderVec, Opaque, SymSeq, FieldList)):
-        return v  # immutable
-    if isinstance(v, LstObj):
-        n = LstObj(v.seq)
-        memo[i] = n
-        return n
+    if isinstance(v, (SStr, Ref, OrderVec, Opaque, SymSeq, FieldList, LstObj)):
+        return v  # immutable (LstObj is a handle; its content is in st.boxes)
     if isinstance(v, list):
         n = []
         memo[i] = n
@@ -361,6 +386,7 @@ def _copy_state(st):
     n = State()
     n.env = _copy_value(st.env, memo)
     n.frames = _copy_value(st.frames, memo)
+    n.boxes = dict(st.boxes)
     n.pc = list(st.pc)
     n.heap = dict(st.heap)
     n.alloc = st.alloc
